@@ -8,7 +8,8 @@ import gen_passwords
 import train_util
 
 SITES = ['parser_parse', 'alpha_detect', 'save_pcfg_data', 'save_counter', 'load_file', 'load_base', 'rec_guesses', 'find_children', 'aymc']
-TRUSTED = ['composition of C05 (tiling, masks), C06 (every segment is an entry of its list), C07 (loader returns the same values), C14 '
+TRUSTED = ['hypotheses of C03_reproduced that are not theorems: AllListed (every tallied item has a non-zero entry in its list: C06_each_once / C06_prob on the writer side, exercised on real trainings), Agree and CaseInvAll as in C13',
+           'composition of C05 (tiling, masks), C06 (every segment is an entry of its list), C07 (loader returns the same values), C14 '
            '(C<n> inserted after A<n>, skip_brute renormalisation), C04 (expansion = product with masks), C02 (every pre-terminal emitted): '
            'each link is proved on its model; the end-to-end statement is checked here on the real pipeline',
            'probabilities sum to 1 exactly over the rationals; over doubles within 1e-9']
